@@ -12,3 +12,5 @@ INVARIANT FixedUntouched
 INVARIANT ZeroBudgetReturnsInit
 INVARIANT AllFixedReturnsInit
 INVARIANT ErrsLenLaw
+INVARIANT LenSetSound
+INVARIANT LenSetTight
